@@ -416,7 +416,9 @@ def check(run, F, tier):
         if comp == want:
             r4.ok(key, comp)
         else:
-            r4.violation(key, "%s is written as %s; the specification's order is %s" % (key, comp, want), site="%s" % ps[impl[0]]["to_continuous_buffer"]["file"])
+            # the key names the order actually written, so that a known deviation does not hide a different one
+            r4.violation("%s/written=%s" % (key, ".".join(str(x) for x in comp)[:120]),
+                         "%s is written as %s; the specification's order is %s" % (key, comp, want), site="%s" % ps[impl[0]]["to_continuous_buffer"]["file"])
 
 
 def trace_fixed_header(F, f, op, depth=0, seen=None):
